@@ -99,6 +99,64 @@ def chain_case(v, kind, names):
     return dict(kind="ok", strategy=strat, checks=checks, dtype=dtype)
 
 
+def series_case(v, kind, N, opts):
+    """series level (C13): the REAL series_strategy — element strategy, pdst.series, dtype conversion, null masks, fallback
+    filters for custom vectorised checks, in the order the code applies them — on the contract stubs; every series that satisfies
+    the collected constraints must pass the REAL validation of the schema that produced the strategy."""
+    import pandera.strategies.pandas_strategies as PS
+
+    lo = v.int("lo", -5, 5)
+    nullable, unique = v.bool("nullable"), v.bool("unique")
+    checks = [Check.ge(lo)] if kind == "float" else [Check.str_startswith("a")]
+    if opts.get("custom") == "no_nulls":  # a vectorised custom check without a strategy: the fallback is a filter on the whole series
+        checks.append(Check(lambda s: s.notna().all(), ignore_na=False))
+    elif opts.get("custom") == "first_is_max":
+        checks.append(Check(lambda s: s >= lo, ignore_na=True))
+    schema = pa.SeriesSchema(float if kind == "float" else str, checks=checks, nullable=nullable, unique=unique, name="s")
+    dtype = pandas_engine.Engine.dtype(DTYPE[kind])
+    if v.sym:
+        saved = (PS.st, PS.npst, PS.re, PS.pdst, PS.null_field_masks)
+        PS.st, PS.npst, PS.re, PS.pdst, PS.null_field_masks = symstrat.ST(), symstrat.NPST(), symstrat.RE(), symstrat.PDST(), symstrat.null_field_masks_stub
+        symstrat.reset()
+        try:
+            with warnings.catch_warnings():
+                warnings.simplefilter("ignore")
+                strat = PS.series_strategy(dtype, checks=checks, nullable=nullable, unique=unique, name="s", size=N)
+        finally:
+            PS.st, PS.npst, PS.re, PS.pdst, PS.null_field_masks = saved
+        from symx import eng
+
+        for c in strat.cons:
+            eng().constrain(c)  # from here on the path only contains series the strategy can emit
+        ser = strat.series
+        o = H.outcome(lambda: schema.validate(ser))
+        return dict(obs=None, asserts=[("series_draws_satisfy_schema", v.holds(o["kind"] == "accept"))],
+                    facts=dict(kind=kind, custom=opts.get("custom"), verdict=o["kind"], reason=o.get("reason")))
+    # concrete side: only asked to confirm a solver-found counterexample — search the REAL strategy for a draw its own schema rejects
+    from hypothesis import HealthCheck, find, settings
+    from hypothesis.errors import NoSuchExample, Unsatisfiable
+
+    if not v.vals.get("_confirm", True):
+        return dict(obs=None, asserts=[("series_draws_satisfy_schema", True)], facts=dict(kind=kind, custom=opts.get("custom"), verdict="accept", reason=None))
+    with warnings.catch_warnings():
+        warnings.simplefilter("ignore")
+        strat = PS.series_strategy(dtype, checks=checks, nullable=nullable, unique=unique, name="s", size=N)
+
+        def rejected(s):
+            try:
+                schema.validate(s)
+                return False
+            except pa.errors.SchemaError:
+                return True
+
+        try:
+            bad = find(strat, rejected, settings=settings(max_examples=3000, database=None, deadline=None, suppress_health_check=list(HealthCheck)))
+            return dict(obs=None, asserts=[("series_draws_satisfy_schema", False)],
+                        facts=dict(kind=kind, custom=opts.get("custom"), verdict="SchemaError", reason=None, _draw=repr(list(bad))))
+        except (NoSuchExample, Unsatisfiable):
+            return dict(obs=None, asserts=[("series_draws_satisfy_schema", True)], facts=dict(kind=kind, custom=opts.get("custom"), verdict="accept", reason=None))
+
+
 def _real_check_passes(checks, el, kind):
     import pandas as pd
 
@@ -109,6 +167,11 @@ def _real_check_passes(checks, el, kind):
 def run_template(t, tier, seed):
     from hypothesis import HealthCheck, Phase, find, given, settings
     from hypothesis.errors import NoSuchExample, Unsatisfiable
+
+    if t.tid.startswith("SER/"):
+        from pvrun import explore_template
+
+        return explore_template(t, tier, seed)
 
     kind, names = t.args
     t0 = time.time()
@@ -242,6 +305,16 @@ def replay(c):
     from hypothesis import HealthCheck, find, settings
     from hypothesis.errors import NoSuchExample, Unsatisfiable
 
+    if c["tid"].startswith("SER/"):
+        kind, N, opts = c["args"]
+        r = series_case(H.V(None, H.Vals(c["vals"])), kind, N, opts)
+        print("series strategy:", c["tid"], "parameters:", c["vals"], "facts:", r["facts"])
+        if not dict(r["asserts"])["series_draws_satisfy_schema"]:
+            print(f"VIOLATION property=C13 replay={c.get('_path', '')}")
+            return 1
+        print("not reproduced")
+        return 0
+
     kind, names = c["args"]
     conc = chain_case(H.V(None, H.Vals(c["vals"])), kind, names)
     print("chain:", names, "dtype:", kind, "parameters:", c["vals"])
@@ -269,4 +342,9 @@ def templates(tier, seed):
                 if tier == "quick" and k == 2 and kind == "float" and not ({"eq", "in_range", "isin", "ge"} & set(chain)):
                     continue
                 ts.append(Template(f"{kind}/{'>'.join(chain)}", chain_case, (kind, list(chain))))
+    # series level: the assembly order of series_strategy (elements -> series -> dtype -> null masks -> fallback filters)
+    for kind in ("float", "str"):
+        for N in ((2,) if tier == "quick" else (1, 2, 3)):
+            for custom in (None, "no_nulls", "first_is_max") if kind == "float" else (None, "no_nulls"):
+                ts.append(Template(f"SER/{kind}/custom={custom}/N={N}", series_case, (kind, N, dict(custom=custom)), replay=False))
     return ts
